@@ -118,6 +118,7 @@ def make_node(name, nd, obj_ids=False):
     if k == 'grp':
         return ConnectorDegreeGroupingNode(name)
     if k == 'dv':
+        name = nd.get('label') or name     # displayed name; several nodes may carry the same one
         if 'opts' in nd:
             return DesignVariableNode(name, options=[f'o{i}' for i in range(nd['opts'])])
         return DesignVariableNode(name, bounds=tuple(nd['bounds']))
